@@ -76,7 +76,7 @@ def run_case(case):
     rows = 1 if not nctx else 2
     fams = sorted({c["fam"] for c in cfg.get("parts", [])}) or [cfg["flow"]]
     for row in range(rows):
-        ctx_row = torch.randn(1, 3 if cfg.get("embed") else nctx, generator=g) if nctx else None
+        ctx_row = torch.randn(1, (dzoo.embed_width(cfg) if cfg.get("embed") else nctx), generator=g) if nctx else None
 
         def logp(x):
             with torch.no_grad():
